@@ -158,6 +158,12 @@ def extract(repo):
             or re.search(r"\breturn\b", b) or 'RecordDataChecksum' not in b:
         raise Fail('data_checksum_audit: not `if CRC32C.checksum(data) == self.data_checksum { Ok(()) } else { Err(RecordDataChecksum) }`')
     g['DATA_AUDIT'] = ['CRC32C.checksum(data)', '==', 'data_checksum', 'RecordDataChecksum']
+    # the sizes written into a record header are what bincode itself reports for the serialized parts
+    sizes = []
+    for mm in re.finditer(r"\bfn\s+serialized_size\b", rec):
+        b = ' '.join(fn_body(rec[mm.start():], 'serialized_size', 'in record.rs').split())
+        sizes.append('bincode' if re.fullmatch(r"(bincode::)?serialized_size\(&self\)\.expect\(\"[^\"]*\"\)", b) else 'other:' + b[:60])
+    g['RECORD_SERIALIZED_SIZES'] = sizes
     io = read(repo, 'src/io/unix/sync.rs')
     g['MAX_SYNC_OPERATION_SIZE'] = const(io, 'MAX_SYNC_OPERATION_SIZE')
 
